@@ -61,6 +61,28 @@ def expected_component_time(e, cname, entry, comp, freq, det):
     return Fraction(count) / (rate * inst)
 
 
+def check_intersector_count(spec, text, ns, e, cname, entry, what, det):
+    """
+    an intersector's operation count is the number of intersection attempts on ALL the ranks it is bound to in this Einsum:
+    the sum of <component>_<rank>.getNumIntersects() over the bound ranks (each a distinct prime of the stand-in).
+    Only decided when every such object is constructed once in the program (else the final namespace does not identify it).
+    """
+    import re
+    ranks = []
+    for x in spec["extra"]["bindings"].get(e, []):
+        if x.get("component") == cname:
+            ranks += [b["rank"] for b in x.get("bindings", []) if "rank" in b]
+    want = Fraction(0)
+    for r in ranks:
+        var = "%s_%s" % (cname, r)
+        if len(re.findall(r"^\s*%s = " % re.escape(var), text, re.M)) != 1 or not isinstance(ns.get(var), standins.Sym):
+            return
+        want += val(ns[var].getNumIntersects())
+    if ranks and Fraction(val(entry["intersect"])) != want:
+        raise Violation("metrics[%r][%r][\"intersect\"]%s = %s, but the intersection attempts on the bound ranks %r add up to %s"
+                        % (e, cname, what, val(entry["intersect"]), ranks, want), sig="intersector-count", details=det)
+
+
 def rollup(metrics, blocks, timed):
     total = Fraction(0)
     for b in blocks:
@@ -99,6 +121,8 @@ def check_metrics(case, text, run, what=""):
             if cname not in info["components"]:
                 raise Violation("metrics[%r][%r] is timed but %r is not a component of configuration %s" % (e, cname, cname, cfg_of[e]),
                                 sig="unknown-component", details=det)
+            if info["components"][cname]["cls"] == "intersector":
+                check_intersector_count(spec, text, ns, e, cname, entry, what, det)
             want = expected_component_time(e, cname, entry, info["components"][cname], freq, det)
             got = Fraction(val(entry["time"]))
             if got != want:
